@@ -755,7 +755,11 @@ pub fn bctr(control_flow_graph: &mut ControlFlowGraph, _: &capstone::Instr) -> R
     let block_index = {
         let block = control_flow_graph.new_block()?;
 
-        block.branch(expr_scalar("ctr", 32));
+        // NIA <- CTR[0:29] || 0b00
+        block.branch(Expr::and(
+            expr_scalar("ctr", 32),
+            expr_const(0xffff_fffc, 32),
+        )?);
 
         block.index()
     };
